@@ -117,7 +117,7 @@ Case make_case(uint64_t seed, long long idx, const std::string &grid, bool thoro
   c.sc.pct_depth = 1 + (int)r.below(3);
   c.sc.pct_horizon = 50 + 40 * (c.n / 16 + c.T);
   c.sc.step_bound = thorough ? 2000000 : 400000;
-  c.sc.cpu_bound_s = 6;
+  c.sc.cpu_bound_s = 4;
   return c;
 }
 
@@ -353,7 +353,7 @@ int main(int argc, char **argv) {
       else result = "{\"status\":\"exit:" + std::to_string(WEXITSTATUS(st)) + "\"}";
     }
     fprintf(res, "{\"case\":%s,\"result\":%s}\n", case_json(c, idx).c_str(), result.c_str());
-    if (result.find("\"status\":\"ok\"") == std::string::npos && ++abnormal >= 30) {
+    if (result.find("\"status\":\"ok\"") == std::string::npos && ++abnormal >= 12) {
       // enough witnesses: a tree that fails everywhere must not cost hours (each hang witness burns its CPU bound)
       fprintf(res, "{\"aborted_early\":true,\"at_idx\":%lld}\n", idx);
       break;
